@@ -191,6 +191,12 @@ def load_findings(prop: str) -> List[Dict]:
     return out
 
 
+def _sigs(f: Dict) -> List[str]:
+    """A finding's signature may be one pattern or a list of patterns (one root cause seen through several oracle clauses)."""
+    s = f.get("signature", [])
+    return [s] if isinstance(s, str) else list(s)
+
+
 def open_ids(prop: str) -> List[str]:
     return [f["id"] for f in load_findings(prop) if f.get("status") == "open"]
 
@@ -217,7 +223,7 @@ def run_check(mod, tier: str, seed: int, replay: Optional[str] = None) -> int:
     t0 = time.time()
     findings = load_findings(prop)
     open_f = [f for f in findings if f.get("status") == "open"]
-    known_sigs = [f["signature"] for f in open_f]
+    known_sigs = [p_ for f in open_f for p_ in _sigs(f)]
 
     if replay:
         with open(replay) as f:
@@ -243,7 +249,7 @@ def run_check(mod, tier: str, seed: int, replay: Optional[str] = None) -> int:
             with open(os.path.join(VERIF, f["replay"])) as fh:
                 rp = json.load(fh)
             res = mod.run_case(rp["case"])
-            reproduced = any(fnmatch.fnmatchcase(s, f["signature"]) for s, _ in res.violations)
+            reproduced = any(fnmatch.fnmatchcase(s, p_) for s, _ in res.violations for p_ in _sigs(f))
         except Exception:
             print(f"harness: could not replay finding {f.get('id')}:\n{traceback.format_exc()}", file=sys.stderr)
             return 2
@@ -334,7 +340,8 @@ def run_check(mod, tier: str, seed: int, replay: Optional[str] = None) -> int:
                     return any(s == sig for s, _ in mod.run_case(c).violations)
 
                 try:
-                    case = ddmin_ops(case, shrink_key, rep, budget=80 if tier == "quick" else 300)
+                    case = ddmin_ops(case, shrink_key, rep,
+                                     budget=getattr(mod, "SHRINK_BUDGET", 80 if tier == "quick" else 300))
                 except Exception:
                     pass
         path = os.path.join("replays", f"{prop}-{jhash(sig)}.json")
